@@ -522,6 +522,38 @@ func checkFilesOrdering(c *Ctx, rule string) {
 				fl, ok := call.Args[len(call.Args)-1].(*ast.FuncLit)
 				byName, onlyName := false, true
 				if ok {
+					// three-way comparators: strings.Compare(a.Name(), b.Name()) / cmp.Compare(…)
+					ast.Inspect(fl.Body, func(k ast.Node) bool {
+						ce, isCall := k.(*ast.CallExpr)
+						if !isCall || len(ce.Args) != 2 {
+							return true
+						}
+						g := calleeOf(info, ce)
+						if g == nil || g.Pkg() == nil || g.Name() != "Compare" || (g.Pkg().Path() != "strings" && g.Pkg().Path() != "cmp") {
+							return true
+						}
+						nameCall := func(e ast.Expr) bool {
+							if ic, ok := ast.Unparen(e).(*ast.CallExpr); ok {
+								if se, ok := ic.Fun.(*ast.SelectorExpr); ok && se.Sel.Name == "Name" {
+									return true
+								}
+							}
+							if t := info.TypeOf(e); t != nil {
+								if b, ok := t.Underlying().(*types.Basic); ok && b.Info()&types.IsString != 0 {
+									if _, isIdx := ast.Unparen(e).(*ast.IndexExpr); isIdx {
+										return true
+									}
+								}
+							}
+							return false
+						}
+						if nameCall(ce.Args[0]) && nameCall(ce.Args[1]) {
+							byName = true
+						} else {
+							onlyName = false
+						}
+						return true
+					})
 					ast.Inspect(fl.Body, func(k ast.Node) bool {
 						be, ok := k.(*ast.BinaryExpr)
 						if !ok || (be.Op != token.LSS && be.Op != token.GTR) {
